@@ -121,8 +121,15 @@ func (c *catalogClass_[K, V]) Extract(
 	var iterator = keys.GetIterator()
 	for iterator.HasNext() {
 		var key = iterator.GetNext()
-		var value = catalog.GetValue(key)
-		result.SetValue(key, value)
+		// Only extract the associations that the catalog actually contains.
+		var associations = catalog.GetIterator()
+		for associations.HasNext() {
+			var association = associations.GetNext()
+			if association.GetKey() == key {
+				result.SetValue(key, association.GetValue())
+				break
+			}
+		}
 	}
 	return result
 }
